@@ -4,7 +4,7 @@
    hook-exported key sets of the two decoder tables). *)
 From V.lib Require Import Base.
 From V.c04 Require Import C04Model C04AsmModel C04ContainerProofs.
-From V.c03 Require Import C03Model C03Spec C03Registry C03Proofs C03CanonProofs C03LeafModel C03LeafProofs C03LeafBoxProofs C03LeafInstProofs C03StsdProofs C03VseProofs C03LeafTruncProofs C03LeafEncProofs.
+From V.c03 Require Import C03Model C03Spec C03Registry C03Proofs C03CanonProofs C03LeafModel C03LeafProofs C03LeafBoxProofs C03LeafInstProofs C03StsdProofs C03VseProofs C03LeafTruncProofs C03LeafEncProofs C03DelegateProofs.
 Open Scope N_scope.
 
 (* Encode to an io.Writer and EncodeSW to a slice writer: identical bytes or both fail, for every container tree and
@@ -227,6 +227,21 @@ Theorem C03_vse_enc_agree : forall name v size kids, agree_list kids = true ->
 Proof. exact (fun n v s k H => conj (vse_enc_agree n v s k H) (vse_leaf_agrees n v s k H)). Qed.
 Print Assumptions C03_vse_enc_agree.
 
+(* ---- the delegation pattern of the remaining reader-path decoders (`data := readBoxBody(r, hdr); return DecodeXxxSR(hdr, pos,
+   bits.NewFixedSliceReader(data))`) ----
+   for EVERY SR decoder expressible as a decision tree of position-relative FixedSliceReader operations (ReadUintN / ReadIntN,
+   ReadBytes, ReadFixedLengthString, SkipBytes, AccError; control flow free to depend on every value read): if its run on the
+   private reader over the body ends without accumulated error, its run on the caller's reader, with the body anywhere in the
+   buffer and anything after it, returns the same value and stops at the same offset into the body, without error.
+   (RemainingBytes, NrRemainingBytes, LookAhead, SetPos ... are not position-relative: the decoders of findings C03-F3..F5 used them.) *)
+Theorem C03_delegate_sound : forall A (p : sprog A) body a s', local_prog p -> (zlen body < 4611686018427387904)%Z ->
+  run_sprog p (rnew body) = Ok (a, s') -> rerr s' = false ->
+  forall pre post, (zlen (pre ++ body ++ post) < two63)%Z ->
+    run_sprog p (mkR (pre ++ body ++ post) (zlen pre) false)
+    = Ok (a, mkR (pre ++ body ++ post) (zlen pre + rpos s')%Z false).
+Proof. exact delegate_sound. Qed.
+Print Assumptions C03_delegate_sound.
+
 (* the two dispatch tables register the same box types (regenerated from /repo on every run) *)
 Theorem C03_registry : keys_decoders = keys_decoders_sr.
 Proof. exact registry_equal. Qed.
@@ -328,4 +343,21 @@ Proof. vm_compute. reflexivity. Qed.
 (* MdatBox with LargeSize: the 16-byte header is kept by both encoders *)
 Example ex_mdat_enc : mdat_enc_w (mkMdat [9;8]%N true) = Ok [0;0;0;1;109;100;97;116;0;0;0;0;0;0;0;18;9;8]%N
   /\ mdat_enc_sw (mkMdat [9;8]%N true) = Ok [0;0;0;1;109;100;97;116;0;0;0;0;0;0;0;18;9;8]%N.
+Proof. split; vm_compute; reflexivity. Qed.
+
+(* a tfdt-like decoder (version/flags, then a 64-bit or 32-bit time depending on the version) is a local program ... *)
+Example ex_prog : sprog N :=
+  SOp RU32 (fun vf => match vf with
+                      | VN x => if (x / 16777216 =? 1)%N then SOp RU64 (fun t => match t with VN y => SRet y | _ => SFail end)
+                                else SOp RU32 (fun t => match t with VN y => SRet y | _ => SFail end)
+                      | _ => SFail end).
+Example ex_prog_local : local_prog ex_prog.
+Proof.
+  split; [reflexivity|]. intros [x|z|l|l o|r|b0|]; try exact I. destruct (x / 16777216 =? 1)%N; (split; [reflexivity|]); intros [y|z|l|l o|r|b0|]; exact I.
+Qed.
+Example ex_prog_run : run_sprog ex_prog (rnew [1;0;0;0; 0;0;0;0;0;0;1;0]%N) = Ok (256%N, mkR [1;0;0;0; 0;0;0;0;0;0;1;0]%N 12 false).
+Proof. vm_compute. reflexivity. Qed.
+(* ... and a decoder built on RemainingBytes (the pinned DecodeColrSR) is not: on the caller's reader it swallows the sibling *)
+Example ex_nonlocal : run_sprog (SOp RRemaining (fun v => SRet v)) (rnew [1;2]%N) = Ok (VBytes [1;2]%N, mkR [1;2]%N 2 false)
+  /\ run_sprog (SOp RRemaining (fun v => SRet v)) (mkR [9;1;2;7]%N 1 false) = Ok (VBytes [1;2;7]%N, mkR [9;1;2;7]%N 4 false).
 Proof. split; vm_compute; reflexivity. Qed.
